@@ -14,10 +14,15 @@
  *         the raw key nor any round key of the FIPS-197 key schedule (engine/ref/aes_ks_ref.c), in
  *         either word byte order; the same scan on the live object just before the free call must
  *         find every round key (otherwise the scan is blind: reported as a violation, see "Library faults").
+ *         Besides, no 8-byte window of the freed block with >= 5 distinct bytes may occur anywhere in the key schedule
+ *         (either word byte order): a partial wipe can leave less than a whole round key.  Every history is run twice:
+ *         with the key object where malloc puts it (16-byte aligned) and in a block at 8 mod 16 (an allocator that
+ *         guarantees 8-byte alignment only; the AES-NI object then keeps its round keys 8 bytes into the object).
  *  aesctr init | alloc+init2, then <= 4 (thorough 5) operations from {stream(1|15|16|17|40 bytes),
  *         init2(NULL, nonce'), init2(key', nonce'')}, then free, on both paths.  Oracle: the freed
  *         block contains neither any nonce used nor any keystream block generated (reference AES);
- *         stream output is compared with the reference keystream on the way.
+ *         stream output is compared with the reference keystream on the way.  The histories of <= 3 (thorough 4)
+ *         operations are also run with the two keys and the stream object in blocks at 8 mod 16.
  *  dh     crypto_dh_generate_pub / compute / generate with OpenSSL's allocator hooked through
  *         CRYPTO_set_mem_functions, for high-entropy private and blinding values (incl. values with
  *         zero limbs, r = x, entropy failure) and, for every x and r in {r#0, r = x} and all 3 ops,
@@ -29,15 +34,23 @@
  *         seen each of those limbs while the call was running.
  *  keys   aws_readkeys on every file of <= 4 lines from {id, secret A, secret B, secret A
  *         with CR LF, unknown key, no separator, empty line, id without EOL (last line only)},
- *         ending in EOF or a read error (fopen -> fopencookie).  Oracle: when the call fails after a
- *         secret line was stored, the block strdup() returned for it is passed to free() and does
- *         not contain any 12-byte piece of the secret at that moment.
+ *         ending in EOF or a read error (fopen -> fopencookie), for secrets of 40, 1, 2, 3, 7, 41, 42 and 43
+ *         characters (the length of this wipe is strlen of the secret: the only data-dependent one).  Oracle: when the
+ *         call fails after a secret line was stored, the block strdup() returned for it is passed to free() and at
+ *         that moment no character of the secret is still in its place in that block; and no block freed during the
+ *         call contains a 12-byte piece of the secret (head, middle, tail; secrets of 7..11 characters: the whole).
+ *
+ * Builds: ./check runs this harness twice.  Built with every CPUSUPPORT_ feature, all five sections, the AES sections on
+ * both paths.  Built without CPUSUPPORT_X86_AESNI (crypto_aes.c / crypto_aesctr.c then have no HWACCEL code at all: the
+ * dispatch in crypto_aes_key_free etc. is compiled out), "--sections aes,ctr --ignore-deep": the AES sections on the one
+ * path that build has, with the thorough bounds also when --deep is given (NPATHS below; the other sections compile to
+ * the same code in both builds).
  *
  * --deep (given by ./check to the thorough tier only; implies the thorough alphabets): hash <= 6 updates from the 9
  * lengths; aes 16 keys, 0..5 encryptions; aesctr <= 6 operations from {stream(1|15|16|17|31|32|33|40|64|100 bytes),
- * init2(NULL, nonce'), init2(key', nonce'')}; dh 14 private x 10 blinding (+ entropy failure) x 6 peer values and every
+ * init2(NULL, nonce'), init2(key', nonce'')} (objects at 8 mod 16: <= 5); dh 14 private x 10 blinding (+ entropy failure) x 6 peer values and every
  * single OpenSSL allocation failure for every private value x {r#0, r = x, r#1, entropy failure} x 3 ops; keys: files of
- * <= 7 lines.  Replay records carry "deep":1 because the aesctr/dh indices then refer to the larger alphabets.
+ * <= 7 lines (secrets of other lengths than 40: <= 5 lines).  Replay records carry "deep":1 because the aesctr/dh indices then refer to the larger alphabets.
  *
  * Library faults: whenever the code under test itself stops a history -- a constructor returns NULL or a DH call fails
  * although the allocator and the entropy source work, the cipher output differs from the reference, the software AES
@@ -47,7 +60,8 @@
  * and the history is abandoned (objects released unobserved).  vf_engine_error is left for the harness's own tables,
  * replay records, the environment (OpenSSL hooks, AES-NI) and the reference self-tests.
  *
- * Seams: -Wl,--wrap=free,strdup (frees made by libcperciva objects), CRYPTO_set_mem_functions
+ * Seams: -Wl,--wrap=malloc,free,strdup (blocks at 8 mod 16 for libcperciva objects, frees made by them: the monitor is
+ * given the pointer the library passed to free() and the size the library asked for), CRYPTO_set_mem_functions
  * (frees made inside libcrypto), link-time replacement of crypto_entropy_read and fopen.
  *
  * Not covered: stack copies and registers; memory released by libc itself (stdio's buffer of the
@@ -77,11 +91,24 @@
 #include "crypto_dh_group14.h"
 #include "crypto_entropy.h"
 #include "aws_readkeys.h"
+#include "cpusupport.h"
 
 #include "vf.h"
 #include "es.h"
 #include "ref/aes_ks_ref.h"
 
+/*
+ * Which AES code paths does this build of the library have?  ./check builds the harness twice: with every CPUSUPPORT_
+ * feature (software and AES-NI path, chosen at run time) and without CPUSUPPORT_X86_AESNI (crypto_aes.c and
+ * crypto_aesctr.c are then compiled without HWACCEL: only the software path exists and only it is explored).
+ */
+#ifdef CPUSUPPORT_X86_AESNI
+#define NPATHS 2
+#else
+#define NPATHS 1
+#endif
+
+void * __real_malloc(size_t);
 void __real_free(void *);
 char * __real_strdup(const char *);
 void verif_wipe_aes_reset(void);
@@ -90,6 +117,10 @@ size_t verif_wipe_aesctr_size(void);
 extern int cpusupport_x86_aesni_present_1, cpusupport_x86_aesni_init_1;
 
 static int deep;			/* --deep: bounds beyond the thorough ones (header) */
+enum { S_HASH, S_AES, S_CTR, S_DH, S_KEYS, NSEC };
+static const char * const SECNAME[NSEC] = { "hash", "aes", "ctr", "dh", "keys" };
+static int sec_on[NSEC] = { 1, 1, 1, 1, 1 };	/* --sections a,b,...: explore only these */
+static int distinct_bytes(const uint8_t * b, size_t n);
 static const char * DEEPJ = "";	/* "\"deep\":1," in replay records of a deep run */
 
 static void
@@ -108,10 +139,13 @@ static struct pat PAT[MAXPAT];
 static int npat, armed, hits, hitcls;
 static char hitmsg[400];
 static const void * watch_ptr; static int watch_freed;
+static const char * watch_secret;	/* keys: the string whose strdup() copy watch_ptr is */
 static uint64_t blocks_scanned;
+/* aes: the whole FIPS-197 key schedule of the key in use, as bytes and with every 32-bit word byte-reversed (window scan below) */
+static uint8_t SCHED[2][240]; static size_t sched_len;
 
 static void
-pat_reset(void) { npat = 0; hits = 0; hitmsg[0] = 0; watch_ptr = NULL; watch_freed = 0; }
+pat_reset(void) { npat = 0; hits = 0; hitmsg[0] = 0; watch_ptr = NULL; watch_freed = 0; watch_secret = NULL; sched_len = 0; }
 static void
 pat_add(const uint8_t * b, size_t len, int expect_live, int cls, const char * name, int n)
 {
@@ -127,13 +161,30 @@ find(const void * hay, size_t n, const struct pat * p)
 	if (n < p->len) return NULL;
 	return memmem(hay, n, p->b, p->len);
 }
-/* Called with a block that is about to be returned to the allocator. */
+/*
+ * Called with a block that is about to be returned to the allocator: blk is the pointer the code under test passed to
+ * free(), n the size of the block as the code under test knows it (the size it asked for; ASan's malloc_usable_size).
+ */
 static void
-scan_freed(const void * blk, const char * origin)
+scan_freed(const void * blk, size_t n, const char * origin)
 {
-	size_t n = malloc_usable_size((void *)(uintptr_t)blk); int i; const uint8_t * f;
+	int i, v; const uint8_t * f; size_t o;
 	blocks_scanned++;
-	if (blk == watch_ptr) watch_freed = 1;
+	if (blk == watch_ptr) {
+		watch_freed = 1;
+		/*
+		 * keys: the copy of the secret, position by position -- no character of the secret may still be in its place
+		 * (a wipe that stops short leaves a tail too short for the 12-byte pieces searched below).
+		 */
+		if (watch_secret != NULL) {
+			size_t L = strlen(watch_secret), first = 0; int left = 0;
+			for (o = 0; o < L && o < n; o++) if (((const uint8_t *)blk)[o] == (uint8_t)watch_secret[o]) { if (left++ == 0) first = o; }
+			if (left && hits++ == 0) {
+				hitcls = CLS_SECRET;
+				snprintf(hitmsg, sizeof(hitmsg), "the %zu-byte block strdup() returned for the %zu-character secret still holds %d of its characters in place (first at offset %zu) when it is passed to %s", n, L, left, first, origin);
+			}
+		}
+	}
 	for (i = 0; i < npat; i++)
 		if ((f = find(blk, n, &PAT[i])) != NULL) {
 			if (hits++ == 0) {
@@ -141,12 +192,64 @@ scan_freed(const void * blk, const char * origin)
 				snprintf(hitmsg, sizeof(hitmsg), "a %zu-byte block passed to %s still contains %s %s at offset %zu", n, origin, CLSNAME[PAT[i].cls], PAT[i].name, (size_t)(f - (const uint8_t *)blk));
 			}
 		}
+	/*
+	 * aes: every 8-byte window of the block that is not trivial (>= 5 distinct bytes) is looked up in the key schedule:
+	 * a wipe that misses part of a round key (e.g. the end of the last one, when the round keys do not start at the
+	 * beginning of the object) leaves less than the 16 bytes the patterns above need.
+	 */
+	if (sched_len) for (o = 0; o + 8 <= n; o++) {
+		const uint8_t * w = (const uint8_t *)blk + o;
+		uint64_t w64; memcpy(&w64, w, 8);
+		if (w64 == 0 || distinct_bytes(w, 8) < 5) continue;	/* (a wiped block is all zero) */
+		for (v = 0; v < 2; v++) if ((f = memmem(SCHED[v], sched_len, w, 8)) != NULL) {
+			if (hits++ == 0) {
+				hitcls = CLS_ROUNDKEY;
+				snprintf(hitmsg, sizeof(hitmsg), "bytes %zu..%zu of a %zu-byte block passed to %s are bytes %zu..%zu of round key %d of the FIPS-197 key schedule%s", o, o + 7, n, origin,
+				    (size_t)(f - SCHED[v]) % 16, (size_t)(f - SCHED[v]) % 16 + 7, (int)((f - SCHED[v]) / 16), v ? " (32-bit words byte-reversed)" : "");
+			}
+			break;
+		}
+	}
+}
+
+/*
+ * malloc as called by the objects of the executable.  While shift_on is set the block handed out starts 8 bytes past a
+ * 16-byte boundary (an allocator that guarantees 8-byte alignment only: 32-bit x86, custom allocators; cf. alloc_misalign in
+ * engine/alloc.c, which cannot be linked here because it brings its own __wrap_free).  The table remembers such blocks:
+ * free() is given the shifted pointer by the code under test, the monitor sees exactly that pointer with the size that
+ * was asked for, the allocator gets its own pointer back.
+ */
+#define MAXSHIFT 16
+static struct { void * p; size_t n; } SHIFTED[MAXSHIFT]; static int nshifted, shift_on;
+static int
+shifted_find(const void * p) { int i; for (i = 0; i < nshifted; i++) if (SHIFTED[i].p == p) return i; return -1; }
+/* size of a live block of the code under test */
+static size_t
+block_size(const void * p) { int i = shifted_find(p); return i >= 0 ? SHIFTED[i].n : malloc_usable_size((void *)(uintptr_t)p); }
+void * __wrap_malloc(size_t n);
+void *
+__wrap_malloc(size_t n)
+{
+	char * b;
+	if (!shift_on) return __real_malloc(n);
+	if (nshifted == MAXSHIFT) vf_engine_error("table of shifted blocks full");
+	if ((b = __real_malloc(n + 16)) == NULL) return NULL;
+	if ((uintptr_t)b % 16) vf_engine_error("the allocator returned a block that is not 16-byte aligned");
+	SHIFTED[nshifted].p = b + 8; SHIFTED[nshifted].n = n; nshifted++;
+	return b + 8;
 }
 void __wrap_free(void * p);
 void
 __wrap_free(void * p)
 {
-	if (p != NULL && armed) scan_freed(p, "free()");
+	int i;
+	if (p != NULL && nshifted && (i = shifted_find(p)) >= 0) {
+		if (armed) scan_freed(p, SHIFTED[i].n, "free()");
+		SHIFTED[i] = SHIFTED[--nshifted];
+		__real_free((char *)p - 8);
+		return;
+	}
+	if (p != NULL && armed) scan_freed(p, malloc_usable_size(p), "free()");
 	__real_free(p);
 }
 
@@ -157,7 +260,7 @@ char *
 __wrap_strdup(const char * s)
 {
 	char * r = __real_strdup(s);
-	if (armed && r != NULL && SECRETS[0] != NULL && (!strcmp(s, SECRETS[0]) || !strcmp(s, SECRETS[1]))) { secret_block = r; secret_dups++; watch_ptr = r; }
+	if (armed && r != NULL && SECRETS[0] != NULL && (!strcmp(s, SECRETS[0]) || !strcmp(s, SECRETS[1]))) { secret_block = r; secret_dups++; watch_ptr = r; watch_secret = strcmp(s, SECRETS[0]) ? SECRETS[1] : SECRETS[0]; }
 	return r;
 }
 
@@ -199,7 +302,7 @@ ossl_free(void * p, const char * file, int line)
 {
 	(void)file; (void)line;
 	if (p == NULL) return;
-	if (armed) { ossl_events++; live_scan(); scan_freed(p, "OpenSSL's free hook"); }
+	if (armed) { ossl_events++; live_scan(); scan_freed(p, malloc_usable_size(p), "OpenSSL's free hook"); }
 	live_del(p);
 	__real_free(p);
 }
@@ -209,7 +312,7 @@ ossl_realloc(void * p, size_t n, const char * file, int line)
 	void * q;
 	if (p == NULL) return ossl_malloc(n, file, line);
 	if (n == 0) { ossl_free(p, file, line); return NULL; }
-	if (armed) { ossl_events++; live_scan(); if (++ossl_allocs == fail_at) return NULL; scan_freed(p, "OpenSSL's realloc hook"); }
+	if (armed) { ossl_events++; live_scan(); if (++ossl_allocs == fail_at) return NULL; scan_freed(p, malloc_usable_size(p), "OpenSSL's realloc hook"); }
 	if ((q = realloc(p, n)) == NULL) return NULL;
 	live_del(p); live_add(q, n);
 	return q;
@@ -427,10 +530,12 @@ replay_hash(const char * js)
 
 /* ===================================================================== AES code path selection */
 static const char * const PATHNAME[2] = { "openssl", "aesni" };
+static const char * const MISSFX[2] = { "", ":block-at-8-mod-16" };	/* signature suffix of the histories whose objects are allocated at 8 mod 16 */
 static int
-set_path(int want)	/* 0 = software (OpenSSL), 1 = AES-NI; returns 0 if selected, -1 if AES-NI is not available, -2 after a library fault (recorded) */
+set_path(int want)	/* 0 = software (OpenSSL), 1 = AES-NI; returns 0 if selected, -1 if AES-NI is not available (CPU, or a build without it), -2 after a library fault (recorded) */
 {
 	int got; char rj[160];
+	if (want < 0 || want >= NPATHS) return -1;	/* a build without CPUSUPPORT_X86_AESNI has the software path only */
 	if (want == 0) { cpusupport_x86_aesni_present_1 = 0; cpusupport_x86_aesni_init_1 = 1; }	/* "detected: absent" */
 	else { cpusupport_x86_aesni_present_1 = 0; cpusupport_x86_aesni_init_1 = 0; }			/* detect honestly */
 	verif_wipe_aes_reset(); verif_wipe_aesctr_reset();
@@ -449,6 +554,8 @@ static int
 aes_patterns(const uint8_t * key, size_t klen, uint8_t rk[240])
 {
 	int nr = aes_ref_expand(key, klen, rk), i, j; uint8_t sw[16];
+	sched_len = (size_t)(16 * (nr + 1)); memcpy(SCHED[0], rk, sched_len);
+	for (i = 0; i < (int)sched_len; i++) SCHED[1][i] = rk[(i & ~3) + (3 - (i & 3))];
 	pat_add(key, klen, 0, CLS_KEY, "key", (int)klen);
 	for (i = 0; i <= nr; i++) {
 		pat_add(rk + 16 * i, 16, 0, CLS_ROUNDKEY, "rk", i);
@@ -461,21 +568,26 @@ aes_patterns(const uint8_t * key, size_t klen, uint8_t rk[240])
 static uint8_t INBUF[512];
 static const uint8_t PT[48] = "0123456789abcdefFEDCBA9876543210-+-+-+-+-+-+-+-";
 
-/* One history: expand, n encryptions, free. Returns 1 on violation. */
+/* One history: expand (mis: into a block at 8 mod 16), n encryptions, free. Returns 1 on violation. */
 static int
-aes_history(int path, int klen, int keyseed, int nenc)
+aes_history(int path, int mis, int klen, int keyseed, int nenc)
 {
-	uint8_t key[32], rk[240], out[16], want[16]; struct crypto_aes_key * k; char rj[200], sig[96]; int nr, i, found = 0, bad = 0; size_t bsz;
+	uint8_t key[32], rk[240], out[16], want[16]; struct crypto_aes_key * k; char rj[200], sig[128]; int nr, i, found = 0, bad = 0; size_t bsz;
 
-	snprintf(rj, sizeof(rj), "{\"sec\":\"aes\",\"tier\":%d,%s\"path\":%d,\"klen\":%d,\"key\":%d,\"enc\":%d}", vf_tier, DEEPJ, path, klen, keyseed, nenc);
+	mis = !!mis;
+	snprintf(rj, sizeof(rj), "{\"sec\":\"aes\",\"tier\":%d,%s\"path\":%d,\"mis\":%d,\"klen\":%d,\"key\":%d,\"enc\":%d}", vf_tier, DEEPJ, path, mis, klen, keyseed, nenc);
 	vf_setcase("%s", rj);
 	lcg_fill(key, (size_t)klen, 500 + (uint64_t)keyseed);
 	pat_reset();
 	nr = aes_patterns(key, (size_t)klen, rk);
-	if ((k = crypto_aes_key_expand(key, (size_t)klen)) == NULL) {
-		snprintf(sig, sizeof(sig), "C20:aes:%s:key-expand-failed", PATHNAME[path]);
-		return lib_fault(sig, rj, "crypto_aes_key_expand(%d-byte key) returned NULL with a healthy allocator (%s path)", klen, PATHNAME[path]);
+	shift_on = mis;
+	k = crypto_aes_key_expand(key, (size_t)klen);
+	shift_on = 0;
+	if (k == NULL) {
+		snprintf(sig, sizeof(sig), "C20:aes:%s:key-expand-failed%s", PATHNAME[path], MISSFX[mis]);
+		return lib_fault(sig, rj, "crypto_aes_key_expand(%d-byte key) returned NULL with a healthy allocator (%s path%s)", klen, PATHNAME[path], mis ? ", malloc results at 8 mod 16" : "");
 	}
+	if (mis && (shifted_find(k) < 0 || (uintptr_t)k % 16 != 8)) vf_engine_error("the key object is not the block at 8 mod 16 handed out by the malloc seam");
 	vf_count("aes.transitions", 1); vf_count("aes.states", 1);
 	for (i = 0; i < nenc; i++) {
 		const uint8_t * pt = i < 3 ? PT + 16 * i : INBUF + 16 * i;	/* PT holds three blocks; deep histories go on in INBUF */
@@ -485,16 +597,16 @@ aes_history(int path, int klen, int keyseed, int nenc)
 		if (memcmp(out, want, 16)) {
 			/* the key schedule in use is not the FIPS-197 one the scan searches for (C02 judges the cipher itself) */
 			crypto_aes_key_free(k);
-			snprintf(sig, sizeof(sig), "C20:aes:%s:ciphertext-differs-from-reference", PATHNAME[path]);
+			snprintf(sig, sizeof(sig), "C20:aes:%s:ciphertext-differs-from-reference%s", PATHNAME[path], MISSFX[mis]);
 			return lib_fault(sig, rj, "crypto_aes_encrypt_block #%d with a %d-byte key differs from FIPS-197 (%s path): the expanded key is not the key schedule of this key, the wipe scan would search for the wrong round keys", i + 1, klen, PATHNAME[path]);
 		}
 	}
 	/* the live object must show every round key (else this scan cannot see a missing wipe) */
-	bsz = malloc_usable_size(k);
+	bsz = block_size(k);
 	for (i = 0; i <= nr; i++) if (find(k, bsz, &PAT[1 + 2 * i]) || find(k, bsz, &PAT[2 + 2 * i])) found++;
 	if (found != nr + 1) {
 		crypto_aes_key_free(k);
-		snprintf(sig, sizeof(sig), "C20:aes:%s:round-keys-not-in-live-key", PATHNAME[path]);
+		snprintf(sig, sizeof(sig), "C20:aes:%s:round-keys-not-in-live-key%s", PATHNAME[path], MISSFX[mis]);
 		return lib_fault(sig, rj, "only %d of the %d FIPS-197 round keys are in the live %zu-byte object returned by crypto_aes_key_expand (%s path, %d-byte key, after %d encryptions): wrong key schedule or an object layout outside the model, the wipe cannot be observed", found, nr + 1, bsz, PATHNAME[path], klen, nenc);
 	}
 	vf_count("aes.roundkeys_seen_live", (uint64_t)found);
@@ -502,9 +614,9 @@ aes_history(int path, int klen, int keyseed, int nenc)
 	crypto_aes_key_free(k);
 	armed = 0;
 	vf_count("aes.transitions", 1); vf_count("aes.states", 1); vf_count("aes.traces", 1);
-	if (!watch_freed) vf_count("aes.block_not_freed", 1); else vf_count("aes.blocks_checked", 1);
-	if (hits) { snprintf(sig, sizeof(sig), "C20:aes:%s:freed-block-contains-%s", PATHNAME[path], CLSNAME[hitcls]); report(sig, rj, "crypto_aes_key_free"); bad = 1; }
-	if (vf_verbose) printf("aes %s key %d bytes, %d encryptions, free: block %s, %d hits\n", PATHNAME[path], klen, nenc, watch_freed ? "seen in free()" : "NOT freed", hits);
+	if (!watch_freed) vf_count("aes.block_not_freed", 1); else { vf_count("aes.blocks_checked", 1); if (mis) vf_count("aes.blocks_checked.at_8_mod_16", 1); }
+	if (hits) { snprintf(sig, sizeof(sig), "C20:aes:%s:freed-block-contains-%s%s", PATHNAME[path], CLSNAME[hitcls], MISSFX[mis]); report(sig, rj, "crypto_aes_key_free"); bad = 1; }
+	if (vf_verbose) printf("aes %s key %d bytes%s, %d encryptions, free: block %s, %d hits\n", PATHNAME[path], klen, mis ? " in a block at 8 mod 16" : "", nenc, watch_freed ? "seen in free()" : "NOT freed", hits);
 	return bad;
 }
 static int nkeys(void) { return deep ? 16 : vf_tier ? 6 : 2; }
@@ -512,11 +624,12 @@ static int maxenc(void) { return deep ? 5 : vf_tier ? 3 : 2; }
 static void
 unit_aes(uint64_t u)
 {
-	int path = (int)(u / (uint64_t)(2 * nkeys())), klen = (u / (uint64_t)nkeys()) % 2 ? 32 : 16, seed = (int)(u % (uint64_t)nkeys()), n;
+	int seed = (int)(u % (uint64_t)nkeys()), klen, mis, path, n;
+	u /= (uint64_t)nkeys(); klen = (u % 2) ? 32 : 16; u /= 2; mis = (int)(u % 2); path = (int)(u / 2);
 	if ((n = set_path(path)) == -2) return;	/* library fault, recorded */
 	if (n) { vf_count("aes.aesni_unavailable", 1); return; }
-	for (n = 0; n <= maxenc(); n++) aes_history(path, klen, seed, n);
-	if (seed == 0) vf_sample("aes %s %d-byte key: expand, 0..%d encryptions, free -> all %d round keys visible before, none inside free()", PATHNAME[path], klen, maxenc(), klen == 16 ? 11 : 15);
+	for (n = 0; n <= maxenc(); n++) aes_history(path, mis, klen, seed, n);
+	if (seed == 0) vf_sample("aes %s %d-byte key%s: expand, 0..%d encryptions, free -> all %d round keys visible before, no 8 bytes of the key schedule inside free()", PATHNAME[path], klen, mis ? " in a block at 8 mod 16" : "", maxenc(), klen == 16 ? 11 : 15);
 }
 
 /* ===================================================================== AES-CTR */
@@ -527,25 +640,28 @@ static int nstream(void) { return deep ? NEL(STREAMLEN_D) : vf_tier ? NEL(STREAM
 static int streamlen(int i) { return (deep ? STREAMLEN_D : vf_tier ? STREAMLEN_T : STREAMLEN_Q)[i]; }
 static int nctrops(void) { return nstream() + 2; }
 static int maxctrops(void) { return deep ? 6 : vf_tier ? 5 : 4; }
+static int ctrops_limit(int mis) { return maxctrops() - (mis ? 1 : 0); }	/* histories on objects at 8 mod 16 are one operation shorter */
 
 static void be64(uint8_t b[8], uint64_t v) { int i; for (i = 0; i < 8; i++) b[i] = (uint8_t)(v >> (56 - 8 * i)); }
 
-/* One history; ops[i] < nstream(): stream, == nstream(): init2(NULL, nonce B), == nstream()+1: init2(key2, nonce C). */
+/* One history; ops[i] < nstream(): stream, == nstream(): init2(NULL, nonce B), == nstream()+1: init2(key2, nonce C).  mis: keys and stream object in blocks at 8 mod 16. */
 static int
-ctr_history(int path, int klen, int start, int nonceseed, const int * ops, int nops)
+ctr_history(int path, int mis, int klen, int start, int nonceseed, const int * ops, int nops)
 {
 	uint8_t K[2][32], rk[2][240], nb[8], ctrblk[16], ks[16], out[128], want[128]; int nr[2], i, j, bad = 0, curkey = 0, ksseen = 0;
-	struct crypto_aes_key * k[2]; struct crypto_aesctr * s; uint64_t nonce[3], curnonce, bytectr = 0; char rj[300], sig[96]; size_t o, bsz;
+	struct crypto_aes_key * k[2]; struct crypto_aesctr * s; uint64_t nonce[3], curnonce, bytectr = 0; char rj[300], sig[128]; size_t o, bsz;
 
-	o = (size_t)snprintf(rj, sizeof(rj), "{\"sec\":\"ctr\",\"tier\":%d,%s\"path\":%d,\"klen\":%d,\"start\":%d,\"nonce\":%d,\"ops\":[", vf_tier, DEEPJ, path, klen, start, nonceseed);
+	mis = !!mis;
+	o = (size_t)snprintf(rj, sizeof(rj), "{\"sec\":\"ctr\",\"tier\":%d,%s\"path\":%d,\"mis\":%d,\"klen\":%d,\"start\":%d,\"nonce\":%d,\"ops\":[", vf_tier, DEEPJ, path, mis, klen, start, nonceseed);
 	for (i = 0; i < nops; i++) o += (size_t)snprintf(rj + o, sizeof(rj) - o, "%s%d", i ? "," : "", ops[i]);
 	snprintf(rj + o, sizeof(rj) - o, "]}");
 	vf_setcase("%s", rj);
 	pat_reset();
 	k[0] = k[1] = NULL; s = NULL;
 	/* library fault (header): record it, release what exists unobserved (armed == 0), abandon the history */
-#define CTR_FAULT(rule, ...) do { snprintf(sig, sizeof(sig), "C20:aesctr:%s:" rule, PATHNAME[path]); lib_fault(sig, rj, __VA_ARGS__); \
+#define CTR_FAULT(rule, ...) do { shift_on = 0; snprintf(sig, sizeof(sig), "C20:aesctr:%s:" rule "%s", PATHNAME[path], MISSFX[mis]); lib_fault(sig, rj, __VA_ARGS__); \
 		if (s != NULL) crypto_aesctr_free(s); if (k[0] != NULL) crypto_aes_key_free(k[0]); if (k[1] != NULL) crypto_aes_key_free(k[1]); return 1; } while (0)
+	shift_on = mis;		/* until the stream object exists: the only allocations of a history are the two keys and the stream */
 	for (i = 0; i < 2; i++) {
 		lcg_fill(K[i], (size_t)klen, 600 + (uint64_t)i); nr[i] = aes_ref_expand(K[i], (size_t)klen, rk[i]);
 		if ((k[i] = crypto_aes_key_expand(K[i], (size_t)klen)) == NULL)
@@ -556,7 +672,9 @@ ctr_history(int path, int klen, int start, int nonceseed, const int * ops, int n
 	be64(nb, curnonce); if (distinct_bytes(nb, 8) >= 5) pat_add(nb, 8, 0, CLS_NONCE, "nonce", 0);
 	if (start == 0) s = crypto_aesctr_init(k[0], curnonce);
 	else { s = crypto_aesctr_alloc(); if (s) crypto_aesctr_init2(s, k[0], curnonce); }
+	shift_on = 0;
 	if (s == NULL) CTR_FAULT("init-failed", "%s returned NULL with a healthy allocator (%s path)", start == 0 ? "crypto_aesctr_init" : "crypto_aesctr_alloc", PATHNAME[path]);
+	if (mis && (shifted_find(s) < 0 || shifted_find(k[0]) < 0 || shifted_find(k[1]) < 0 || (uintptr_t)s % 16 != 8)) vf_engine_error("the stream object and its keys are not the blocks at 8 mod 16 handed out by the malloc seam");
 	vf_count("ctr.transitions", 1); vf_count("ctr.states", 1);
 	for (i = 0; i < nops; i++) {
 		if (ops[i] < nstream()) {
@@ -585,8 +703,8 @@ ctr_history(int path, int klen, int start, int nonceseed, const int * ops, int n
 	}
 	/* live pre-scan: the current nonce is in the object; a keystream block may be */
 	bsz = verif_wipe_aesctr_size();
-	if (malloc_usable_size(s) < bsz) CTR_FAULT("object-smaller-than-type", "the stream object is a %zu-byte block, struct crypto_aesctr has %zu bytes (%s path)", malloc_usable_size(s), bsz, PATHNAME[path]);
-	bsz = malloc_usable_size(s);
+	if (block_size(s) < bsz) CTR_FAULT("object-smaller-than-type", "the stream object is a %zu-byte block, struct crypto_aesctr has %zu bytes (%s path)", block_size(s), bsz, PATHNAME[path]);
+	bsz = block_size(s);
 	be64(nb, curnonce);
 	if (memmem(s, bsz, nb, 8) == NULL) CTR_FAULT("nonce-not-in-live-object", "the nonce of the last init/init2 is not in the live %zu-byte stream object after %d operations (%s path): init2 did not store it or the object layout is outside the model, the wipe cannot be observed", bsz, nops, PATHNAME[path]);
 	for (i = 0; i < npat; i++) if (PAT[i].cls == CLS_KEYSTREAM && find(s, bsz, &PAT[i])) ksseen = 1;
@@ -595,34 +713,34 @@ ctr_history(int path, int klen, int start, int nonceseed, const int * ops, int n
 	crypto_aesctr_free(s);
 	armed = 0;
 	vf_count("ctr.transitions", 1); vf_count("ctr.states", 1); vf_count("ctr.traces", 1);
-	if (!watch_freed) vf_count("ctr.block_not_freed", 1); else vf_count("ctr.blocks_checked", 1);
-	if (hits) { snprintf(sig, sizeof(sig), "C20:aesctr:%s:freed-block-contains-%s", PATHNAME[path], CLSNAME[hitcls]); report(sig, rj, "crypto_aesctr_free"); bad = 1; }
-	if (vf_verbose) printf("aesctr %s: %d operations then free: block %s, keystream visible before free: %d, %d hits\n", PATHNAME[path], nops, watch_freed ? "seen in free()" : "NOT freed", ksseen, hits);
+	if (!watch_freed) vf_count("ctr.block_not_freed", 1); else { vf_count("ctr.blocks_checked", 1); if (mis) vf_count("ctr.blocks_checked.at_8_mod_16", 1); }
+	if (hits) { snprintf(sig, sizeof(sig), "C20:aesctr:%s:freed-block-contains-%s%s", PATHNAME[path], CLSNAME[hitcls], MISSFX[mis]); report(sig, rj, "crypto_aesctr_free"); bad = 1; }
+	if (vf_verbose) printf("aesctr %s%s: %d operations then free: block %s, keystream visible before free: %d, %d hits\n", PATHNAME[path], mis ? " (objects at 8 mod 16)" : "", nops, watch_freed ? "seen in free()" : "NOT freed", ksseen, hits);
 	crypto_aes_key_free(k[0]); crypto_aes_key_free(k[1]);
 	return bad;
 #undef CTR_FAULT
 }
 static void
-ctr_rec(int path, int klen, int start, int nonceseed, int * ops, int nops)
+ctr_rec(int path, int mis, int klen, int start, int nonceseed, int * ops, int nops)
 {
 	int i;
-	ctr_history(path, klen, start, nonceseed, ops, nops);
-	if (nops == maxctrops()) return;
-	for (i = 0; i < nctrops(); i++) { ops[nops] = i; ctr_rec(path, klen, start, nonceseed, ops, nops + 1); }
+	ctr_history(path, mis, klen, start, nonceseed, ops, nops);
+	if (nops >= ctrops_limit(mis)) return;
+	for (i = 0; i < nctrops(); i++) { ops[nops] = i; ctr_rec(path, mis, klen, start, nonceseed, ops, nops + 1); }
 }
-/* unit = path, klen, start, nonce seed, first op (or none) */
+/* unit = path, alignment, klen, start, nonce seed, first op (or none) */
 static void
 unit_ctr(uint64_t u)
 {
-	int first = (int)(u % (uint64_t)(nctrops() + 1)), nonceseed, start, klen, path, ops[8], sp;
+	int first = (int)(u % (uint64_t)(nctrops() + 1)), nonceseed, start, klen, mis, path, ops[8], sp;
 	u /= (uint64_t)(nctrops() + 1);
-	nonceseed = (int)(u % 2); u /= 2; start = (int)(u % 2); u /= 2; klen = (u % 2) ? 32 : 16; path = (int)(u / 2);
+	nonceseed = (int)(u % 2); u /= 2; start = (int)(u % 2); u /= 2; klen = (u % 2) ? 32 : 16; u /= 2; mis = (int)(u % 2); path = (int)(u / 2);
 	if ((sp = set_path(path)) == -2) return;	/* library fault, recorded */
 	if (sp) { vf_count("ctr.aesni_unavailable", 1); return; }
-	if (first == nctrops()) { ctr_history(path, klen, start, nonceseed, ops, 0); return; }
+	if (first == nctrops()) { ctr_history(path, mis, klen, start, nonceseed, ops, 0); return; }
 	ops[0] = first;
-	ctr_rec(path, klen, start, nonceseed, ops, 1);
-	if (first == 2 && nonceseed == 0 && start == 0) vf_sample("aesctr %s %d-byte key: every history init, <=%d ops from {stream x%d, init2(NULL), init2(key')}, free -> nonce/keystream absent inside free()", PATHNAME[path], klen, maxctrops(), nstream());
+	ctr_rec(path, mis, klen, start, nonceseed, ops, 1);
+	if (first == 2 && nonceseed == 0 && start == 0) vf_sample("aesctr %s %d-byte key%s: every history init, <=%d ops from {stream x%d, init2(NULL), init2(key')}, free -> nonce/keystream absent inside free()", PATHNAME[path], klen, mis ? ", objects at 8 mod 16" : "", ctrops_limit(mis), nstream());
 }
 
 /* ===================================================================== Diffie-Hellman */
@@ -767,13 +885,24 @@ unit_dh_fault(uint64_t u)
 }
 
 /* ===================================================================== aws_readkeys */
-static const char SECRET_A[] = "q7Wm2XvLr9TzKp4YhN8sGd3FbJc6VaQeU1oRiS5t";
-static const char SECRET_B[] = "Zx0PlM9nKo8BjI7vHu6CgY5tFr4DxE3sWz2AqL1w";
+/*
+ * The two secrets of a file are the first seclen characters of these strings.  40 is the length of a real AWS secret; the
+ * other lengths are there because the wipe in aws_readkeys is the one wipe of the property whose length depends on the data
+ * (strlen of the secret): lengths that are not a multiple of 4 or 8, shorter than a machine word, longer than 40.
+ */
+static const char SECRET_A43[] = "q7Wm2XvLr9TzKp4YhN8sGd3FbJc6VaQeU1oRiS5tM0x";
+static const char SECRET_B43[] = "Zx0PlM9nKo8BjI7vHu6CgY5tFr4DxE3sWz2AqL1wn3K";
+static const int SECLEN[] = { 40, 1, 2, 3, 7, 41, 42, 43 };
+#define NSECLEN NEL(SECLEN)
+static char SECRET_A[44], SECRET_B[44]; static int seclen;
 static char LINES[8][96]; static int nlines;
 enum { L_ID, L_SA, L_SB, L_SACR, L_UNK, L_NOSEP, L_EMPTY, L_NOEOL };
 static void
-build_lines(void)
+build_lines(int len)
 {
+	if (len < 1 || len > 43) vf_engine_error("secret length %d outside 1..43", len);
+	seclen = len;
+	memcpy(SECRET_A, SECRET_A43, (size_t)len); SECRET_A[len] = 0; memcpy(SECRET_B, SECRET_B43, (size_t)len); SECRET_B[len] = 0;
 	snprintf(LINES[L_ID], 96, "ACCESS_KEY_ID=AKIAVERIFKEYID00\n");
 	snprintf(LINES[L_SA], 96, "ACCESS_KEY_SECRET=%s\n", SECRET_A);
 	snprintf(LINES[L_SB], 96, "ACCESS_KEY_SECRET=%s\n", SECRET_B);
@@ -784,14 +913,15 @@ build_lines(void)
 	snprintf(LINES[L_NOEOL], 96, "ACCESS_KEY_ID=AKIANOEOL");
 	nlines = 8;
 }
-static int maxlines(void) { return deep ? 7 : 4; }
+/* deep: files of <= 7 lines with the 40-character secrets, <= 5 lines with the other lengths */
+static int maxlines(void) { return deep ? (seclen == 40 ? 7 : 5) : 4; }
 
 static int
 keys_history(const int * ln, int n, int err_at_end)
 {
 	char file[512], rj[200], sig[96]; size_t o = 0; int i, rc, bad = 0; char * id = NULL, * sec = NULL;
 
-	o = (size_t)snprintf(rj, sizeof(rj), "{\"sec\":\"keys\",\"tier\":%d,%s\"end\":%d,\"lines\":[", vf_tier, DEEPJ, err_at_end);
+	o = (size_t)snprintf(rj, sizeof(rj), "{\"sec\":\"keys\",\"tier\":%d,%s\"slen\":%d,\"end\":%d,\"lines\":[", vf_tier, DEEPJ, seclen, err_at_end);
 	for (i = 0; i < n; i++) o += (size_t)snprintf(rj + o, sizeof(rj) - o, "%s%d", i ? "," : "", ln[i]);
 	snprintf(rj + o, sizeof(rj) - o, "]}");
 	vf_setcase("%s", rj);
@@ -799,11 +929,19 @@ keys_history(const int * ln, int n, int err_at_end)
 	for (i = 0; i < n; i++) o += (size_t)snprintf(file + o, sizeof(file) - o, "%s", LINES[ln[i]]);
 	KF.data = file; KF.len = o; KF.err_at_end = err_at_end;
 	pat_reset();
+	/*
+	 * searched in every block freed during the call: 12-byte pieces (head, middle, tail) of secrets of >= 12 characters, a
+	 * 7..11-character secret as a whole; shorter ones could occur anywhere by accident and are judged in their own block only
+	 * (scan_freed compares the block strdup() returned for the secret position by position, for every length)
+	 */
 	for (i = 0; i < 2; i++) {
 		const char * s = i ? SECRET_B : SECRET_A;
-		pat_add((const uint8_t *)s, 12, 0, CLS_SECRET, i ? "B.head" : "A.head", 0);
-		pat_add((const uint8_t *)s + 14, 12, 0, CLS_SECRET, i ? "B.mid" : "A.mid", 14);
-		pat_add((const uint8_t *)s + 28, 12, 0, CLS_SECRET, i ? "B.tail" : "A.tail", 28);
+		if (seclen >= 12) {
+			pat_add((const uint8_t *)s, 12, 0, CLS_SECRET, i ? "B.head" : "A.head", 0);
+			pat_add((const uint8_t *)s + (seclen - 12) / 2, 12, 0, CLS_SECRET, i ? "B.mid" : "A.mid", (seclen - 12) / 2);
+			pat_add((const uint8_t *)s + seclen - 12, 12, 0, CLS_SECRET, i ? "B.tail" : "A.tail", seclen - 12);
+		} else if (seclen >= 7)
+			pat_add((const uint8_t *)s, (size_t)seclen, 0, CLS_SECRET, i ? "B" : "A", 0);
 	}
 	SECRETS[0] = SECRET_A; SECRETS[1] = SECRET_B; secret_block = NULL; secret_dups = 0;
 	armed = 1;
@@ -816,9 +954,9 @@ keys_history(const int * ln, int n, int err_at_end)
 		__real_free(id); __real_free(sec);
 	} else if (secret_dups) {
 		vf_count("keys.failed_after_secret", 1);
-		if (watch_freed) vf_count("keys.secret_blocks_checked", 1); else vf_count("keys.secret_block_not_freed", 1);
+		if (watch_freed) { vf_count("keys.secret_blocks_checked", 1); if (seclen % 4) vf_count("keys.secret_blocks_checked.length_not_multiple_of_4", 1); } else vf_count("keys.secret_block_not_freed", 1);
 	} else vf_count("keys.failed_before_secret", 1);
-	if (hits) { snprintf(sig, sizeof(sig), "C20:readkeys:freed-block-contains-secret:%s", err_at_end ? "read-error" : "parse-error"); report(sig, rj, "aws_readkeys (failing)"); bad = 1; }
+	if (hits) { snprintf(sig, sizeof(sig), "C20:readkeys:freed-block-contains-secret:%s%s", err_at_end ? "read-error" : "parse-error", seclen % 4 ? ":secret-length-not-multiple-of-4" : ""); report(sig, rj, "aws_readkeys (failing)"); bad = 1; }
 	if (vf_verbose) printf("aws_readkeys rc=%d, secret lines stored: %d, secret block %s, %d hits\nfile:\n%s<%s>\n", rc, secret_dups, watch_freed ? "seen in free()" : "not freed", hits, file, err_at_end ? "read error" : "EOF");
 	return bad;
 }
@@ -833,10 +971,12 @@ keys_rec(int * ln, int n, int err_at_end)
 static void
 unit_keys(uint64_t u)
 {
-	int ln[8], first = (int)(u / 2), err = (int)(u % 2);
+	int ln[8], err = (int)(u % 2), first, li;
+	u /= 2; first = (int)(u % (uint64_t)(nlines + 1)); li = (int)(u / (uint64_t)(nlines + 1));
+	build_lines(SECLEN[li]);
 	if (first == nlines) { keys_history(ln, 0, err); return; }
 	ln[0] = first; keys_rec(ln, 1, err);
-	if (first == L_SA) vf_sample("aws_readkeys: every file of <=%d lines starting with the secret line, ending in %s: failing reads free the secret's block wiped", maxlines(), err ? "a read error" : "EOF");
+	if (first == L_SA && (li == 0 || li == 5)) vf_sample("aws_readkeys: every file of <=%d lines starting with the line of a %d-character secret, ending in %s: failing reads free the secret's block wiped", maxlines(), seclen, err ? "a read error" : "EOF");
 }
 
 /* ===================================================================== DH calls made outside the worker pool */
@@ -903,30 +1043,42 @@ static int
 do_replay(const char * js)
 {
 	int l[8], n;
+	/* a record that names a path this executable does not have: AES-NI missing in the CPU, or (path 1 in a build without CPUSUPPORT_X86_AESNI) in the build */
+#define NOPATH() vf_engine_error("%s", NPATHS == 1 ? "replay: this build (no CPUSUPPORT_X86_AESNI) has the software AES path only" : "AES-NI not available")
 	if (strstr(js, "\"sec\":\"hash\"")) return replay_hash(js);
-	if (strstr(js, "\"sec\":\"aes\"")) { if ((n = set_path(jint(js, "path", 0))) == -2) return 1; if (n) vf_engine_error("AES-NI not available"); return aes_history(jint(js, "path", 0), jint(js, "klen", 16), jint(js, "key", 0), jint(js, "enc", 0)); }
-	if (strstr(js, "\"sec\":\"ctr\"")) { if ((n = set_path(jint(js, "path", 0))) == -2) return 1; if (n) vf_engine_error("AES-NI not available"); n = jlist(js, "ops", l, 8); return ctr_history(jint(js, "path", 0), jint(js, "klen", 16), jint(js, "start", 0), jint(js, "nonce", 0), l, n); }
+	if (strstr(js, "\"sec\":\"aes\"")) { if ((n = set_path(jint(js, "path", 0))) == -2) return 1; if (n) NOPATH(); return aes_history(jint(js, "path", 0), jint(js, "mis", 0), jint(js, "klen", 16), jint(js, "key", 0), jint(js, "enc", 0)); }
+	if (strstr(js, "\"sec\":\"ctr\"")) { if ((n = set_path(jint(js, "path", 0))) == -2) return 1; if (n) NOPATH(); n = jlist(js, "ops", l, 8); return ctr_history(jint(js, "path", 0), jint(js, "mis", 0), jint(js, "klen", 16), jint(js, "start", 0), jint(js, "nonce", 0), l, n); }
 	if (strstr(js, "\"sec\":\"dh\"")) return dh_call(jint(js, "op", 0), jint(js, "x", 0), jint(js, "r", 0), jint(js, "y", 0), jint(js, "fail", 0), NULL);
-	if (strstr(js, "\"sec\":\"keys\"")) { n = jlist(js, "lines", l, 8); return keys_history(l, n, jint(js, "end", 0)); }
+	if (strstr(js, "\"sec\":\"keys\"")) { build_lines(jint(js, "slen", 40)); n = jlist(js, "lines", l, 8); return keys_history(l, n, jint(js, "end", 0)); }
 	vf_engine_error("replay: unknown section");
 }
 
 int
 main(int argc, char ** argv)
 {
-	int i, st, hooks, dh_broken = 0; struct dhguard * G; char csig[200], ctext[8192];
+	int i, st, hooks, dh_broken = 0, nodeep = 0; struct dhguard * G; char csig[200], ctext[8192];
 	/* before anything can make OpenSSL allocate */
 	hooks = CRYPTO_set_mem_functions(ossl_malloc, ossl_realloc, ossl_free);
 	vf_init(&argc, argv, "h_wipe");
 	if (!hooks) vf_engine_error("CRYPTO_set_mem_functions refused the hooks (OpenSSL had already allocated)");
 	if (sizeof(BN_ULONG) != 8) vf_engine_error("BN_ULONG is not 64 bits: limb patterns would not match");
-	for (i = 1; i < argc; i++) if (!strcmp(argv[i], "--deep")) deep = 1;
+	for (i = 1; i < argc; i++) {
+		if (!strcmp(argv[i], "--deep")) deep = 1;
+		else if (!strcmp(argv[i], "--ignore-deep")) nodeep = 1;	/* this run keeps the thorough bounds when ./check asks for --deep */
+		else if (!strcmp(argv[i], "--sections") && i + 1 < argc) {	/* e.g. --sections aes,ctr */
+			int k, any = 0; const char * a = argv[++i];
+			for (k = 0; k < NSEC; k++) { const char * f = strstr(a, SECNAME[k]); size_t l = strlen(SECNAME[k]);
+				sec_on[k] = f != NULL && (f == a || f[-1] == ',') && (f[l] == 0 || f[l] == ','); any |= sec_on[k]; }
+			if (!any) vf_engine_error("--sections %s names no section (hash,aes,ctr,dh,keys)", a);
+		} else vf_engine_error("unknown argument %s", argv[i]);
+	}
+	if (nodeep) deep = 0;
 	if (vf_replay) { vf_replay = unescape_replay(vf_replay); vf_tier = jint(vf_replay, "tier", vf_tier); deep = jint(vf_replay, "deep", deep); }
 	if (deep) { vf_tier = 1; DEEPJ = "\"deep\":1,"; }	/* deep extends the thorough alphabets */
 	if ((st = aes_ref_selftest()) != 0) vf_engine_error("aes_ks_ref self-test failed at step %d", st);
 	for (i = 0; i < (int)sizeof(MSG); i++) MSG[i] = (uint8_t)(i * 37 + 11);
 	for (i = 0; i < (int)sizeof(INBUF); i++) INBUF[i] = (uint8_t)(i * 73 + 5);
-	build_lines(); build_dh_alphabet();
+	build_lines(40); build_dh_alphabet();
 	/*
 	 * Let OpenSSL do its lazy one-time allocations (error strings, this thread's error state, first bignum
 	 * use) here, unobserved, so that the allocator-event counts of the monitored calls do not depend on
@@ -934,32 +1086,45 @@ main(int argc, char ** argv)
 	 */
 	OPENSSL_init_crypto(OPENSSL_INIT_LOAD_CRYPTO_STRINGS, NULL); ERR_clear_error();
 	G = vf_shalloc(sizeof(*G)); memset(G, 0, sizeof(*G));
-	if (vf_replay == NULL || strstr(vf_replay, "\"sec\":\"dh\"") != NULL) {
+	if (vf_replay == NULL ? sec_on[S_DH] : strstr(vf_replay, "\"sec\":\"dh\"") != NULL) {
 		/* the same call in a child first: a crash or a failure in crypto_dh.c is a verdict about the library */
 		st = vf_run_isolated(dh_warmup_child, G, csig, sizeof(csig), ctext, sizeof(ctext));
 		if (!(WIFEXITED(st) && WEXITSTATUS(st) == 0)) { dh_guard_report(csig, 0, "warm-up call", ctext, 0); dh_broken = 1; }
 		else if (G->rc[0] != 0) { dh_guard_report(NULL, 0, "warm-up call", "", G->rc[0]); dh_broken = 1; }
 		if (dh_broken && vf_replay != NULL) { printf("replay: property violated\n"); vf_finish(); return 1; }
 	}
-	if (!dh_broken) { uint8_t o[256]; memset(&ent, 0, sizeof(ent)); ent.n = 1; lcg_fill(ent.data[0], 32, 1); (void)crypto_dh_generate_pub(o, DHX[0]); }
+	if (!dh_broken && (vf_replay != NULL || sec_on[S_DH])) { uint8_t o[256]; memset(&ent, 0, sizeof(ent)); ent.n = 1; lcg_fill(ent.data[0], 32, 1); (void)crypto_dh_generate_pub(o, DHX[0]); }
 	memcpy(PUB[0], crypto_dh_group14, 256); reverse(PUB[1], crypto_dh_group14, 256);
-	vf_info("bounds", "hash: 6 algorithms, <=%d updates from %d lengths, 5 HMAC key lengths; aes: 2 paths x {16,32} x %d keys x 0..%d encryptions; aesctr: 2 paths x {16,32} x 2 starts x 2 nonce sets x <=%d ops from %d; "
-	    "dh: 3 ops x %d private x %d blinding (+failure) x %d peers, + every single OpenSSL allocation failure for %d private values x %s x 3 ops; keys: files of <=%d lines from %d kinds x {EOF, read error}",
-	    maxupd(), nupdlen(), nkeys(), maxenc(), maxctrops(), nctrops(), ndhx, ndhr, ndhy, nfaultx(), deep ? "{r#0, r=x, r#1, entropy failure}" : "{r#0, r=x}", maxlines(), nlines);
+	vf_info("bounds", "hash: 6 algorithms, <=%d updates from %d lengths, 5 HMAC key lengths; aes: %s x {blocks as malloc returns them, blocks at 8 mod 16} x {16,32} x %d keys x 0..%d encryptions; "
+	    "aesctr: %s x {16,32} x 2 starts x 2 nonce sets x <=%d ops from %d (objects at 8 mod 16: <=%d ops); "
+	    "dh: 3 ops x %d private x %d blinding (+failure) x %d peers, + every single OpenSSL allocation failure for %d private values x %s x 3 ops; "
+	    "keys: secrets of 40|1|2|3|7|41|42|43 characters x files of <=%d lines%s from %d kinds x {EOF, read error}",
+	    maxupd(), nupdlen(), NPATHS == 2 ? "2 paths (OpenSSL, AES-NI)" : "the software path (build without CPUSUPPORT_X86_AESNI)", nkeys(), maxenc(),
+	    NPATHS == 2 ? "2 paths" : "the software path", maxctrops(), nctrops(), ctrops_limit(1), ndhx, ndhr, ndhy, nfaultx(), deep ? "{r#0, r=x, r#1, entropy failure}" : "{r#0, r=x}",
+	    maxlines(), deep ? " (other lengths than 40: <=5)" : "", nlines);
+	{ char secs[64] = ""; for (i = 0; i < NSEC; i++) if (sec_on[i]) { strcat(secs, secs[0] ? "," : ""); strcat(secs, SECNAME[i]); } vf_info("sections", "%s", secs); }
+	vf_info("aes_paths", "%s", NPATHS == 2 ? "software (OpenSSL) and AES-NI, selected at run time" : "software (OpenSSL) only: built without CPUSUPPORT_X86_AESNI, crypto_aes.c and crypto_aesctr.c have no HWACCEL code");
 	if (vf_replay) {
 		int bad = do_replay(vf_replay);
 		printf("replay: %s\n", bad ? "property violated" : "holds");
 		vf_finish();
 		return bad ? 1 : 0;
 	}
-	{ static const char * const secs[] = { "hash", "aes", "ctr", "dh", "keys" }; char k[40]; for (i = 0; i < 5; i++) { snprintf(k, sizeof(k), "%s.exhaustive", secs[i]); vf_count(k, 0); } }
+	{ char k[40]; for (i = 0; i < NSEC; i++) if (sec_on[i]) { snprintf(k, sizeof(k), "%s.exhaustive", SECNAME[i]); vf_count(k, 0); } }
 
-	vf_parallel(6 * 5, unit_hash);
-	if (!vf_deadline_hit() && vf_getcount("hash.incomplete") == 0) vf_setmax("hash.exhaustive", 1);
-	vf_parallel((uint64_t)(2 * 2 * nkeys()), unit_aes);
-	if (!vf_deadline_hit()) vf_setmax("aes.exhaustive", 1);
-	vf_parallel((uint64_t)(2 * 2 * 2 * 2 * (nctrops() + 1)), unit_ctr);
-	if (!vf_deadline_hit()) vf_setmax("ctr.exhaustive", 1);
+	if (sec_on[S_HASH]) {
+		vf_parallel(6 * 5, unit_hash);
+		if (!vf_deadline_hit() && vf_getcount("hash.incomplete") == 0) vf_setmax("hash.exhaustive", 1);
+	}
+	if (sec_on[S_AES]) {
+		vf_parallel((uint64_t)(NPATHS * 2 * 2 * nkeys()), unit_aes);
+		if (!vf_deadline_hit()) vf_setmax("aes.exhaustive", 1);
+	}
+	if (sec_on[S_CTR]) {
+		vf_parallel((uint64_t)(NPATHS * 2 * 2 * 2 * 2 * (nctrops() + 1)), unit_ctr);
+		if (!vf_deadline_hit()) vf_setmax("ctr.exhaustive", 1);
+	}
+	if (!sec_on[S_DH]) dh_broken = -1;	/* not asked for */
 	/* allocation counts of the fault-free calls, for the fault enumeration */
 	if (!dh_broken) { long mx;
 	  /* (an engine error inside the child is still an engine error: vf_run_isolated passes it on) */
@@ -981,20 +1146,24 @@ main(int argc, char ** argv)
 		vf_parallel((uint64_t)(3 * ndhx * (ndhr + 1) * ndhy), unit_dh);
 		vf_parallel((uint64_t)(3 * nfaultx() * nfaultr()) * (uint64_t)dh_maxallocs, unit_dh_fault);
 		if (!vf_deadline_hit()) vf_setmax("dh.exhaustive", 1);
-	} else vf_info("dh_skipped", "the DH histories were not explored: a fault-free crypto_dh call died or failed before the enumeration (see the violation)");
-	vf_parallel((uint64_t)(2 * (nlines + 1)), unit_keys);
-	if (!vf_deadline_hit()) vf_setmax("keys.exhaustive", 1);
+	} else if (dh_broken > 0) vf_info("dh_skipped", "the DH histories were not explored: a fault-free crypto_dh call died or failed before the enumeration (see the violation)");
+	if (sec_on[S_KEYS]) {
+		vf_parallel((uint64_t)(NSECLEN * 2 * (nlines + 1)), unit_keys);
+		if (!vf_deadline_hit()) vf_setmax("keys.exhaustive", 1);
+	}
 
 	/* non-vacuity across sections */
 	if (vf_nviolations() == 0 && !vf_deadline_hit()) {
-		if (vf_getcount("aes.blocks_checked") == 0 || vf_getcount("ctr.blocks_checked") == 0) vf_engine_error("no AES / AES-CTR object was seen inside free()");
-		if (vf_getcount("ctr.keystream_seen_live.openssl") == 0) vf_engine_error("no keystream block was ever visible in a live AES-CTR object (software path)");
-		if (vf_getcount("aes.aesni_unavailable") == 0 && vf_getcount("ctr.keystream_seen_live.aesni") == 0) vf_engine_error("no keystream block was ever visible in a live AES-CTR object (AES-NI path)");
-		if (vf_getcount("keys.secret_blocks_checked") == 0) vf_engine_error("no failing key-file read released a secret block");
-		if (vf_getcount("dh.limbs_seen_live") == 0) vf_engine_error("DH limbs never seen live");
-		if (vf_getcount("dh.calls_failed") == 0) vf_engine_error("DH failure paths never reached");
+		if ((sec_on[S_AES] && vf_getcount("aes.blocks_checked") == 0) || (sec_on[S_CTR] && vf_getcount("ctr.blocks_checked") == 0)) vf_engine_error("no AES / AES-CTR object was seen inside free()");
+		if ((sec_on[S_AES] && vf_getcount("aes.blocks_checked.at_8_mod_16") == 0) || (sec_on[S_CTR] && vf_getcount("ctr.blocks_checked.at_8_mod_16") == 0)) vf_engine_error("no AES / AES-CTR object at 8 mod 16 was seen inside free()");
+		if (sec_on[S_CTR] && vf_getcount("ctr.keystream_seen_live.openssl") == 0) vf_engine_error("no keystream block was ever visible in a live AES-CTR object (software path)");
+		if (sec_on[S_CTR] && NPATHS == 2 && vf_getcount("ctr.aesni_unavailable") == 0 && vf_getcount("ctr.keystream_seen_live.aesni") == 0) vf_engine_error("no keystream block was ever visible in a live AES-CTR object (AES-NI path)");
+		if (sec_on[S_KEYS] && vf_getcount("keys.secret_blocks_checked") == 0) vf_engine_error("no failing key-file read released a secret block");
+		if (sec_on[S_KEYS] && vf_getcount("keys.secret_blocks_checked.length_not_multiple_of_4") == 0) vf_engine_error("no failing key-file read released a secret block whose secret has a length that is not a multiple of 4");
+		if (sec_on[S_DH] && vf_getcount("dh.limbs_seen_live") == 0) vf_engine_error("DH limbs never seen live");
+		if (sec_on[S_DH] && vf_getcount("dh.calls_failed") == 0) vf_engine_error("DH failure paths never reached");
 	}
-	if (vf_getcount("aes.aesni_unavailable")) vf_info("aesni", "this CPU does not offer AES-NI: only the OpenSSL path was explored");
+	if (vf_getcount("aes.aesni_unavailable") || vf_getcount("ctr.aesni_unavailable")) vf_info("aesni", "this CPU does not offer AES-NI: only the OpenSSL path was explored");
 	vf_info("blocks_scanned", "see counters dh.transitions (allocator events), aes/ctr/keys.*_checked");
 	return vf_finish();
 }
